@@ -482,27 +482,27 @@ Section OrderRings.
   Hypothesis trans : forall x y z, ltb x y = true -> ltb y z = true -> ltb x z = true.
   Hypothesis total : forall x y, ltb x y = false -> ltb y x = false -> x = y.
 
-  Lemma split_first_some : forall (l : list A) pre x post,
-    split_first ccw l = Some (pre, x, post) ->
-    l = pre ++ x :: post /\ ccw x = true /\ filter ccw pre = [].
+  Lemma split_first_some (f : A -> bool) : forall (l : list A) pre x post,
+    split_first f l = Some (pre, x, post) ->
+    l = pre ++ x :: post /\ f x = true /\ filter f pre = [].
   Proof.
     induction l as [|a t IH]; intros pre x post H; simpl in H; [discriminate|].
-    destruct (ccw a) eqn:Ea.
+    destruct (f a) eqn:Ea.
     - injection H as <- <- <-. repeat split. exact Ea.
-    - destruct (split_first ccw t) as [[[p y] q]|] eqn:Es; [|discriminate].
+    - destruct (split_first f t) as [[[p y] q]|] eqn:Es; [|discriminate].
       injection H as <- <- <-. destruct (IH p y q eq_refl) as (-> & Hy & Hp).
       repeat split; [exact Hy|]. simpl. rewrite Ea. exact Hp.
   Qed.
-  Lemma split_first_none : forall l : list A, split_first ccw l = None -> filter ccw l = [].
+  Lemma split_first_none (f : A -> bool) : forall l : list A, split_first f l = None -> filter f l = [].
   Proof.
     induction l as [|a t IH]; intros H; simpl in *; [reflexivity|].
-    destruct (ccw a); [discriminate|].
-    destruct (split_first ccw t) as [[[p y] q]|]; [discriminate|]. apply IH. reflexivity.
+    destruct (f a); [discriminate|].
+    destruct (split_first f t) as [[[p y] q]|]; [discriminate|]. apply IH. reflexivity.
   Qed.
 
-  Lemma swap_first_ccw_perm (l : list A) : Permutation (swap_first_ccw ccw l) l.
+  Lemma swap_first_ccw_perm (f : A -> bool) (l : list A) : Permutation (swap_first_ccw f l) l.
   Proof.
-    unfold swap_first_ccw. destruct (split_first ccw l) as [[[pre x] post]|] eqn:Es; [|reflexivity].
+    unfold swap_first_ccw. destruct (split_first f l) as [[[pre x] post]|] eqn:Es; [|reflexivity].
     destruct pre as [|a pre]; [reflexivity|].
     apply split_first_some in Es. destruct Es as (-> & _ & _).
     simpl. etransitivity; [|apply perm_skip; apply Permutation_middle].
@@ -510,42 +510,120 @@ Section OrderRings.
     symmetry. apply Permutation_middle.
   Qed.
 
-  (* with exactly one counter-clockwise ring, that ring ends up first *)
-  Lemma swap_first_ccw_head (l : list A) o :
-    filter ccw l = [o] -> exists rest, swap_first_ccw ccw l = o :: rest.
+  (* the member moved to the front is the first one satisfying f *)
+  Lemma swap_first_head (f : A -> bool) (l : list A) o :
+    (exists x, In x l /\ f x = true) -> (forall x, f x = true -> x = o) ->
+    exists rest, swap_first_ccw f l = o :: rest.
   Proof.
-    intros Hf. unfold swap_first_ccw.
-    destruct (split_first ccw l) as [[[pre x] post]|] eqn:Es.
-    - apply split_first_some in Es. destruct Es as (-> & Hx & Hp).
-      rewrite filter_app, Hp in Hf. simpl in Hf. rewrite Hx in Hf. injection Hf as -> _.
+    intros (x & Hin & Hfx) Huniq. unfold swap_first_ccw.
+    destruct (split_first f l) as [[[pre y] post]|] eqn:Es.
+    - apply split_first_some in Es. destruct Es as (-> & Hy & _). apply Huniq in Hy. subst y.
       destruct pre as [|a pre]; eexists; reflexivity.
-    - apply split_first_none in Es. rewrite Es in Hf. discriminate.
+    - apply split_first_none in Es.
+      assert (In x (filter f l)) by (apply filter_In; split; assumption). rewrite Es in H. contradiction.
   Qed.
 
-  Lemma order_rings_perm_invariant_lemma (l l' : list A) o :
-    filter ccw l = [o] -> Permutation l l' -> order_rings ltb ccw l = order_rings ltb ccw l'.
+  Lemma fold_min_spec : forall (t : list A) x,
+    let m := fold_left (fun b y => if ltb y b then y else b) t x in
+    (m = x \/ In m t) /\ le A ltb m x /\ (forall y, In y t -> le A ltb m y).
   Proof.
-    intros Hf P.
-    assert (Hf' : filter ccw l' = [o]).
-    { apply Permutation_length_1_inv. rewrite <- Hf. apply Permutation_filter. exact P. }
-    destruct (swap_first_ccw_head l o Hf) as (rest & E).
-    destruct (swap_first_ccw_head l' o Hf') as (rest' & E').
-    unfold order_rings. rewrite E, E'. f_equal. f_equal.
+    induction t as [|y t IH]; intros x; simpl.
+    - repeat split; [left; reflexivity|apply irrefl|intros y []].
+    - destruct (IH (if ltb y x then y else x)) as (Hin & Hle & Hall).
+      set (m := fold_left (fun b y0 => if ltb y0 b then y0 else b) t (if ltb y x then y else x)) in *.
+      destruct (ltb y x) eqn:E.
+      + repeat split.
+        * destruct Hin as [->|Hin]; [right; left; reflexivity|right; right; exact Hin].
+        * apply (le_trans A ltb trans total m y x Hle). apply (lt_le A ltb irrefl trans). exact E.
+        * intros z [<-|Hz]; [exact Hle|apply Hall; exact Hz].
+      + repeat split.
+        * destruct Hin as [->|Hin]; [left; reflexivity|right; right; exact Hin].
+        * exact Hle.
+        * intros z [Hz|Hz]; [|apply Hall; exact Hz]. subst z.
+          apply (le_trans A ltb trans total m x y Hle). exact E.
+  Qed.
+
+  Lemma least_spec (l : list A) o : least ltb l = Some o -> In o l /\ forall y, In y l -> le A ltb o y.
+  Proof.
+    destruct l as [|x t]; simpl; [discriminate|]. intros H. injection H as <-.
+    destruct (fold_min_spec t x) as (Hin & Hle & Hall). split.
+    - destruct Hin as [->|Hin]; [left; reflexivity|right; exact Hin].
+    - intros y [<-|Hy]; [exact Hle|apply Hall; exact Hy].
+  Qed.
+
+  Lemma least_perm (l l' : list A) : Permutation l l' -> least ltb l = least ltb l'.
+  Proof.
+    intros P. destruct (least ltb l) as [o|] eqn:E, (least ltb l') as [o'|] eqn:E'.
+    - destruct (least_spec l o E) as [Hin Hall]. destruct (least_spec l' o' E') as [Hin' Hall'].
+      f_equal. apply (le_antisym A ltb total).
+      + apply Hall. eapply Permutation_in; [symmetry; exact P|exact Hin'].
+      + apply Hall'. eapply Permutation_in; [exact P|exact Hin].
+    - destruct l' as [|x t]; [|discriminate]. apply Permutation_sym, Permutation_nil in P. subst. discriminate.
+    - destruct l as [|x t]; [|discriminate]. apply Permutation_nil in P. subst. discriminate.
+    - reflexivity.
+  Qed.
+
+  Lemma same_spec o x : same ltb o x = true <-> x = o.
+  Proof.
+    unfold same. rewrite andb_true_iff, !negb_true_iff. split.
+    - intros [H1 H2]. apply total; assumption.
+    - intros ->. split; apply irrefl.
+  Qed.
+
+  (* outer ring first, then the holes in sorted order: independent of the discovery order of the
+     rings - with the repaired choice of the outer ring no hypothesis on the rings is needed *)
+  Lemma order_rings_perm_invariant_lemma (l l' : list A) :
+    Permutation l l' -> order_rings ltb ccw l = order_rings ltb ccw l'.
+  Proof.
+    intros P. unfold order_rings.
+    pose proof (Permutation_filter ccw l l' P) as Pf.
+    set (cands := candidates ccw l). set (cands' := candidates ccw l').
+    assert (Pc : Permutation cands cands').
+    { unfold cands, cands', candidates. destruct (filter ccw l) as [|c t] eqn:E, (filter ccw l') as [|c' t'] eqn:E'.
+      - exact P.
+      - apply Permutation_nil in Pf. discriminate.
+      - apply Permutation_sym, Permutation_nil in Pf. discriminate.
+      - exact Pf. }
+    assert (Hsub : forall x, In x cands -> In x l).
+    { unfold cands, candidates. intros x. destruct (filter ccw l) as [|c t] eqn:E; [auto|].
+      rewrite <- E. intros H. apply filter_In in H. tauto. }
+    rewrite <- (least_perm cands cands' Pc).
+    destruct (least ltb cands) as [o|] eqn:E; [|reflexivity].
+    destruct (least_spec cands o E) as [Hin _].
+    assert (Hex : exists x, In x l /\ same ltb o x = true).
+    { exists o. split; [apply Hsub; exact Hin|apply same_spec; reflexivity]. }
+    assert (Hex' : exists x, In x l' /\ same ltb o x = true).
+    { destruct Hex as (x & Hx & Hs). exists x. split; [eapply Permutation_in; eassumption|exact Hs]. }
+    destruct (swap_first_head (same ltb o) l o Hex (fun x H => proj1 (same_spec o x) H)) as (rest & Er).
+    destruct (swap_first_head (same ltb o) l' o Hex' (fun x H => proj1 (same_spec o x) H)) as (rest' & Er').
+    rewrite Er, Er'. f_equal. f_equal.
     apply (isort_perm_invariant_lemma A ltb irrefl trans total).
-    apply Permutation_cons_inv with (a := o). rewrite <- E, <- E'.
-    rewrite !swap_first_ccw_perm. exact P.
+    apply Permutation_cons_inv with (a := o). rewrite <- Er, <- Er'.
+    etransitivity; [apply swap_first_ccw_perm|]. etransitivity; [exact P|]. symmetry. apply swap_first_ccw_perm.
   Qed.
 
-  (* the outcome in the model when the hypothesis fails: with no counter-clockwise ring the member
-     that happens to come first stays first *)
-  Lemma order_rings_no_ccw (a : A) (t : list A) :
-    filter ccw (a :: t) = [] -> order_rings ltb ccw (a :: t) = Some (a :: isort ltb t).
+  (* ... and the first member of the result is the least counter-clockwise ring when there is one *)
+  Lemma order_rings_head_lemma (l : list A) o rest :
+    order_rings ltb ccw l = Some (o :: rest) ->
+    (filter ccw l <> [] -> ccw o = true /\ forall y, In y l -> ccw y = true -> le A ltb o y) /\
+    Permutation (o :: rest) l.
   Proof.
-    intros Hf. unfold order_rings, swap_first_ccw.
-    destruct (split_first ccw (a :: t)) as [[[pre x] post]|] eqn:Es; [|reflexivity].
-    apply split_first_some in Es. destruct Es as (El & Hx & _).
-    rewrite El, filter_app in Hf. simpl in Hf. rewrite Hx in Hf.
-    apply app_eq_nil in Hf. destruct Hf as [_ Hf]. discriminate.
+    unfold order_rings.
+    set (cands := candidates ccw l).
+    destruct (least ltb cands) as [m|] eqn:E; [|discriminate].
+    destruct (least_spec cands m E) as [Hin Hall].
+    assert (Hsub : forall x, In x cands -> In x l).
+    { unfold cands, candidates. intros x. destruct (filter ccw l) as [|c t] eqn:Ef; [auto|].
+      rewrite <- Ef. intros H. apply filter_In in H. tauto. }
+    destruct (swap_first_head (same ltb m) l m) as (r & Er).
+    { exists m. split; [apply Hsub; exact Hin|apply same_spec; reflexivity]. }
+    { intros x H. apply same_spec. exact H. }
+    rewrite Er. intros H. injection H as <- <-. split.
+    - intros Hne. unfold cands, candidates in Hin, Hall. destruct (filter ccw l) as [|c t] eqn:Ef; [contradiction|].
+      rewrite <- Ef in Hin, Hall. split.
+      + apply filter_In in Hin. tauto.
+      + intros y Hy Hc. apply Hall. apply filter_In. split; assumption.
+    - etransitivity; [apply perm_skip; apply (isort_perm A ltb)|]. rewrite <- Er. apply swap_first_ccw_perm.
   Qed.
 End OrderRings.
 
@@ -575,24 +653,23 @@ Qed.
 
 (* a polygon's ring list does not depend on where each ring walk started nor on the order in
    which the rings were discovered *)
-Lemma canon_poly_invariant_lemma (ccw : seqT -> bool) cell cell' o :
-  Forall (@NoDup seqT) cell -> filter ccw (map canon_ring cell) = [o] ->
+Lemma canon_poly_invariant_lemma (ccw : seqT -> bool) cell cell' :
+  Forall (@NoDup seqT) cell ->
   cell_equiv cell cell' -> canon_poly ccw cell = canon_poly ccw cell'.
 Proof.
-  intros Hnd Hf (mid & Hm & P). unfold canon_poly.
-  apply (order_rings_perm_invariant_lemma seqT sq_ltb ccw sq_ltb_irrefl sq_ltb_trans sq_ltb_total _ _ o Hf).
+  intros Hnd (mid & Hm & P). unfold canon_poly.
+  apply (order_rings_perm_invariant_lemma seqT sq_ltb ccw sq_ltb_irrefl sq_ltb_trans sq_ltb_total).
   rewrite (map_canon_ring_equiv cell mid Hnd Hm). apply Permutation_map. exact P.
 Qed.
 
-Definition cell_ok (ccw : seqT -> bool) (cell : list (list seqT)) : Prop :=
-  Forall (@NoDup seqT) cell /\ exists o, filter ccw (map canon_ring cell) = [o].
+Definition cell_ok (cell : list (list seqT)) : Prop := Forall (@NoDup seqT) cell.
 
 Lemma canon_cells_pointwise (ccw : seqT -> bool) : forall cells mid,
-  Forall (cell_ok ccw) cells -> Forall2 cell_equiv cells mid -> canon_cells ccw cells = canon_cells ccw mid.
+  Forall cell_ok cells -> Forall2 cell_equiv cells mid -> canon_cells ccw cells = canon_cells ccw mid.
 Proof.
   intros cells mid Hok H. induction H as [|c c' t t' Hc Ht IH]; [reflexivity|].
-  inversion Hok as [|? ? [Hnd [o Ho]] Hok']; subst. simpl.
-  rewrite (canon_poly_invariant_lemma ccw c c' o Hnd Ho Hc), (IH Hok'). reflexivity.
+  inversion Hok as [|? ? Hnd Hok']; subst. simpl.
+  rewrite (canon_poly_invariant_lemma ccw c c' Hnd Hc), (IH Hok'). reflexivity.
 Qed.
 
 Lemma canon_cells_perm (ccw : seqT -> bool) : forall cells cells',
@@ -628,7 +705,7 @@ Proof. apply (isort_perm_invariant_lemma xyT xy_ltb xy_ltb_irrefl xy_ltb_trans x
 (* the whole extraction: whatever order the runtime delivers faces, rings, ring starts, half
    edges (either twin first) and vertices in, the extracted members come out the same *)
 Lemma canon_perm_invariant_lemma (ccw : seqT -> bool) cells cells' es es' ps ps' :
-  Forall (cell_ok ccw) cells ->
+  Forall cell_ok cells ->
   (forall polys, canon_cells ccw cells = Some polys ->
      forall p q, In p polys -> In q polys -> ext_ring p = ext_ring q -> p = q) ->
   cells_equiv cells cells' -> edges_equiv es es' -> Permutation ps ps' ->
